@@ -64,9 +64,9 @@ func corpus(o *hc.Out, dir string) {
 		{"F24.fixed.cr_ending_line_break", tbl(ab, []cell{cI(1), cI(2)}), with(option.FIXED, func(op *opts) { op.lb = text.CR; op.positions = []int{2, 4} }), true},
 		{"F24.jsonl.cr_line_break", tbl(ab, []cell{cI(1), cS("x")}, []cell{cI(2), cS("y")}), with(option.JSONL, func(op *opts) { op.lb = text.CR; op.strip = true }), true},
 		{"F24.fixed.cr_line_break_automatic_positions", tbl(ab, []cell{cS("abc"), cI(2)}), with(option.FIXED, func(op *opts) { op.lb = text.CR; op.strip = true }), true},
-		{"F25.csv.ending_line_break_not_transcoded", tbl(ab, []cell{cS("x"), cI(2)}), with(option.CSV, utf16), true},
-		{"F25.tsv.ending_line_break_not_transcoded", tbl(ab, []cell{cS("x"), cI(2)}), with(option.TSV, utf16), true},
-		{"F25.ltsv.ending_line_break_not_transcoded", tbl(ab, []cell{cS("x"), cI(2)}), with(option.LTSV, utf16), true},
+		{"fixed.F25.csv.utf16_ending_line_break", tbl(ab, []cell{cS("x"), cI(2)}), with(option.CSV, utf16), true},
+		{"fixed.F25.tsv.utf16_ending_line_break", tbl(ab, []cell{cS("x"), cI(2)}), with(option.TSV, utf16), true},
+		{"fixed.F25.ltsv.utf16_ending_line_break", tbl(ab, []cell{cS("x"), cI(2)}), with(option.LTSV, utf16), true},
 		{"F26.ltsv.single_field_record", tbl([]string{"a"}, []cell{cI(1)}, []cell{cI(2)}), with(option.LTSV, strip), true},
 		{"F16.fixed.utf16_padding", tbl(ab, []cell{cS("abc"), cI(2)}), with(option.FIXED, func(op *opts) { op.enc = text.UTF16; op.strip = true }), true},
 		{"F16.fixed.automatic_positions", tbl(ab, []cell{cS("x y"), cI(1)}, []cell{cS("x y"), cI(2)}), with(option.FIXED, strip), true},
@@ -175,8 +175,43 @@ func corpus(o *hc.Out, dir string) {
 		diaRun(o, dir, t, w.d, true, w.d.enc, "dialect.opposite_session."+w.id)
 	}
 	sessionOpposite = false
-	// known (F25): an updated UTF-16 file gets its ending line break as raw bytes
-	diaRun(o, dir, dt(), with(option.CSV, func(op *opts) { op.enc = text.UTF16BEM }), true, text.AUTO, "F25.csv.dialect_ending_line_break_not_transcoded")
-	diaRun(o, dir, dt(), with(option.TSV, func(op *opts) { op.enc = text.UTF16LEM }), true, text.AUTO, "F25.tsv.dialect_ending_line_break_not_transcoded")
-	diaRun(o, dir, dt(), with(option.LTSV, func(op *opts) { op.enc = text.UTF16BEM }), true, text.AUTO, "F25.ltsv.dialect_ending_line_break_not_transcoded")
+	// the encoding is kept however the import encoding is named: exact name, generic family name
+	// (UTF8 / UTF16), AUTO; by the session flag or by the argument of a table object
+	for _, f := range []option.Format{option.CSV, option.LTSV, option.TSV, option.FIXED} {
+		for _, e := range []text.Encoding{text.UTF8, text.UTF8M, text.UTF16LEM, text.UTF16BEM, text.UTF16LE, text.UTF16BE, text.UTF16, text.SJIS} {
+			if f == option.FIXED && utf16Family(e) {
+				continue // F16 utf16_padding
+			}
+			if (f == option.TSV || f == option.FIXED) && e != text.UTF8M && e != text.UTF16LEM && e != text.SJIS {
+				continue
+			}
+			names := []text.Encoding{e}
+			if g := genericEncoding(e); g != e {
+				names = append(names, g)
+			}
+			if e == text.UTF8 || e == text.UTF8M || e == text.UTF16LEM || e == text.UTF16BEM {
+				names = append(names, text.AUTO)
+			}
+			for _, n := range names {
+				for _, obj := range []bool{false, true} {
+					d := with(f, func(op *opts) { op.enc = e })
+					if f == option.FIXED {
+						d.positions = []int{4, 9}
+					}
+					diaViaTableObject = obj
+					how := "flag"
+					if obj {
+						how = "table_object"
+					}
+					diaRun(o, dir, dt(), d, true, n, "encoding_kept."+fmtName(f)+"."+encName(e)+".named_"+encName(n)+"."+how)
+				}
+			}
+		}
+	}
+	diaViaTableObject = false
+	// F25 (repaired by /tmp/c02-patches/02: the ending line break is written in the file's encoding): an
+	// updated UTF-16 file ends in a UTF-16 line break; must be kept byte for byte
+	diaRun(o, dir, dt(), with(option.CSV, func(op *opts) { op.enc = text.UTF16BEM }), true, text.AUTO, "fixed.F25.csv.utf16_file_updated")
+	diaRun(o, dir, dt(), with(option.TSV, func(op *opts) { op.enc = text.UTF16LEM }), true, text.AUTO, "fixed.F25.tsv.utf16_file_updated")
+	diaRun(o, dir, dt(), with(option.LTSV, func(op *opts) { op.enc = text.UTF16BEM }), true, text.AUTO, "fixed.F25.ltsv.utf16_file_updated")
 }
